@@ -266,7 +266,7 @@ fn c07_p<P: Kmer>(c: &mut Case) -> Result<(), String> {
 pub const RULE_C07: &str = "case = sequence (alphabet 1-4 letters, length k..5k+3, optionally a noisy tandem repeat so the minimizer recurs inside one window) x P in {2,3,4,5,8,10,16} x k in p..p+40 (k=p weighted 1/6) x score in {lexicographic, constant, rank mod 3, 64-bit hash, AT-count, permutation, permutation rc-min, scores >= 2^32} x container {DnaString, DnaStringSlice fwd, DnaStringSlice rc, DnaBytes, DnaSlice, Lmer3}; distinct = hash of (p,k,score kind,sequence); non-trivial = more than one interval";
 
 pub fn run_c07(ctx: &Ctx) {
-    let n = ctx.n(300_000, 20_000_000);
+    let n = ctx.n(1_500_000, 60_000_000);
     ctx.run_group("scan", n, false, |c| match c.rng.below(7) {
         0 => c07_p::<Kmer2>(c),
         1 => c07_p::<Kmer3>(c),
@@ -440,7 +440,7 @@ fn c08_case<P: Kmer>(c: &mut Case) -> Result<(), String> {
         };
         reads.push(r);
     }
-    let perm: Option<Vec<usize>> = match c.rng.below(3) {
+    let perm: Option<Vec<usize>> = match if p > 8 { 0 } else { c.rng.below(3) } {
         0 => None,
         1 => {
             let mut v: Vec<usize> = (0..1usize << (2 * p)).collect();
@@ -480,8 +480,9 @@ fn c08_case<P: Kmer>(c: &mut Case) -> Result<(), String> {
 pub const RULE_C08: &str = "case = read set in which k-mers recur by construction (a base read, its reverse complement, sub-reads, flanked copies, tandem repeats, homopolymers) x P in {2,3,4,5,6,8} x k in p+1..p+12 or at the piece container's capacity limit (2k-p = max_len) x permutation {default, shuffled, reversed} x rc mode x piece container {DnaString, DnaBytes, Lmer1, Lmer2, Lmer3}; distinct = hash of (p,k,rc,reads); non-trivial = some k-mer observed more than once AND some read cut into more than one piece";
 
 pub fn run_c08(ctx: &Ctx) {
-    let n = ctx.n(60_000, 3_000_000);
-    ctx.run_group("msp", n, false, |c| match c.rng.below(6) {
+    let n = ctx.n(600_000, 30_000_000);
+    ctx.run_group("msp", n, false, |c| match if c.rng.chance(1, 200) { 6 } else { c.rng.below(6) } {
+        6 => c08_case::<Kmer10>(c),
         0 => c08_case::<Kmer2>(c),
         1 => c08_case::<Kmer3>(c),
         2 => c08_case::<Kmer4>(c),
